@@ -3,6 +3,7 @@ C06 — Row grouping and uniqueness primitives are exact.
 Property theorems only; helper lemmas live in Proofs/.
 -/
 import TrimeshVerif.Proofs.Grouping
+import TrimeshVerif.Proofs.GroupingMore
 namespace TV.C06
 open TV TV.Grouping
 
@@ -162,5 +163,146 @@ theorem C06_unique_rows (cols : Nat) (rows : List (List Int)) (hl : ∀ r ∈ ro
       simp only [hu, Option.map_some, Option.some.injEq] at h3
       have hmem : ru ∈ rows := List.mem_of_getElem? hu
       rw [finj ru hmem _ (List.getElem_mem hi) h3, List.getElem?_eq_getElem hi]
+
+/-! ### run merging, per-group minimum, set operations on rows -/
+
+/-- **merge_runs**: the result has no two equal neighbours, and the input is the result with every
+    value repeated a positive number of times (so exactly the consecutive repeats were removed,
+    a value may still occur in several places) -/
+theorem C06_merge_runs (l : List Int) :
+    (∀ i, i + 1 < (mergeRuns l).length → (mergeRuns l)[i]? ≠ (mergeRuns l)[i + 1]?) ∧
+    ∃ cs : List Nat, cs.length = (mergeRuns l).length ∧ (∀ c ∈ cs, 0 < c) ∧
+      expandRuns (mergeRuns l) cs = l :=
+  ⟨mergeRuns_adjacent l, mergeRuns_expand l⟩
+
+example : mergeRuns [-1, -1, 0, 0, 1, 2, 0, 3, 3] = [-1, 0, 1, 2, 0, 3] := by decide
+
+/-- **group_min**: one entry per class of equal labels (the classes of `C06_group_partition`, in
+    ascending label order); the entry is a lower bound of the data of its class and is attained -/
+theorem C06_group_min (groups data : List Int) :
+    (groupMin groups data).length = (groupsOf intLe groups).length ∧
+    ∀ (k : Nat) (g : List Nat), (groupsOf intLe groups)[k]? = some g →
+      ∃ m : Int, (groupMin groups data)[k]? = some m ∧ (∀ i ∈ g, m ≤ data.getD i 0) ∧
+        ∃ i ∈ g, m = data.getD i 0 := by
+  refine ⟨by simp [groupMin], ?_⟩
+  intro k g hk
+  have hg : g ∈ groupsOf intLe groups := List.mem_of_getElem? hk
+  have hne := groupsOf_ne_nil intLe groups g hg
+  obtain ⟨h1, h2, h3⟩ := foldl_min_spec (g.map (fun i => data.getD i 0)) (data.getD (g.headD 0) 0)
+  refine ⟨(g.map (fun i => data.getD i 0)).foldl min (data.getD (g.headD 0) 0), ?_, ?_, ?_⟩
+  · simp only [groupMin, List.getElem?_map, hk, Option.map_some]
+  · intro i hi
+    exact h2 _ (List.mem_map.mpr ⟨i, hi, rfl⟩)
+  · rcases h3 with h | h
+    · exact ⟨g.headD 0, headD_mem hne, h⟩
+    · obtain ⟨i, hi, e⟩ := List.mem_map.mp h
+      exact ⟨i, hi, e.symm⟩
+
+
+/-- **boolean_rows**: the intersection holds exactly the rows present in both arrays, the
+    difference exactly the rows of `a` absent from `b`; each row once, in ascending order -/
+theorem C06_boolean_rows (a b : List (List Int)) :
+    (∀ r, r ∈ rowsInter a b ↔ r ∈ a ∧ r ∈ b) ∧ (rowsInter a b).Pairwise lexLt ∧
+    (∀ r, r ∈ rowsDiff a b ↔ r ∈ a ∧ r ∉ b) ∧ (rowsDiff a b).Pairwise lexLt := by
+  have key : ∀ l : List (List Int), (∀ r, r ∈ (l.mergeSort lexLe).eraseDups ↔ r ∈ l) ∧
+      ((l.mergeSort lexLe).eraseDups).Pairwise lexLt := by
+    intro l
+    refine ⟨fun r => by rw [List.mem_eraseDups, List.mem_mergeSort], ?_⟩
+    exact sorted_nodup_strict
+      ((mergeSort_lex_sorted l).sublist (eraseDups_sublist _ _ (Nat.le_refl _)))
+      (eraseDups_nodup _ _ (Nat.le_refl _))
+  refine ⟨?_, (key _).2, ?_, (key _).2⟩
+  · intro r; unfold rowsInter; rw [(key _).1]; simp
+  · intro r; unfold rowsDiff; rw [(key _).1]; simp
+
+
+/-! ### blocks -/
+
+/-- without wrap-around `blocks` is the specification (maximal runs, then the filter) -/
+theorem C06_blocks_nowrap_spec (data : List Int) (minLen : Nat) (maxLen : Option Nat) (onz : Bool) :
+    blocks data minLen maxLen false onz = blocksSpec data minLen maxLen false onz := by
+  simp only [blocks, blocksSpec, Bool.false_and, Bool.not_false, if_true, Bool.false_eq_true, if_false]
+  rw [List.filter_map]
+  congr 1
+  apply List.filter_congr
+  intro se hse
+  have hse' : se ∈ consec (infl data) := by
+    simpa [consec, infl, changePoints] using hse
+  simp only [Function.comp, rangeFromTo_length]
+  by_cases hd : data = []
+  · subst hd
+    have : se = (0, 0) := by simpa [consec, infl, changePoints] using hse'
+    subst this; simp [rangeFromTo]
+  · rw [rangeFromTo_headD (run_bounds hd hse').1]
+
+/-- **the runs tile the array**: unfiltered, the blocks concatenate to `0, 1, …, n-1` — every index
+    lies in exactly one block, blocks are contiguous and in order -/
+theorem C06_blocks_tile (data : List Int) : (blocks data 0 none false false).flatten = List.range data.length := by
+  have h := runs_tile data
+  simp only [blocks, Bool.not_false, if_true]
+  have : ((0 :: (List.filter (fun i => decide (i ≥ 1) && data.getD i 0 != data.getD (i - 1) 0)
+      (List.range data.length)) ++ [data.length]).zip
+      (0 :: (List.filter (fun i => decide (i ≥ 1) && data.getD i 0 != data.getD (i - 1) 0)
+      (List.range data.length)) ++ [data.length]).tail) = consec (infl data) := by
+    simp [consec, infl, changePoints]
+  rw [this]
+  have ft : ∀ l : List (Nat × Nat), l.filter (fun _ => true) = l := fun l => by simp
+  simpa [ft] using h
+
+/-- **blocks are exactly the maximal runs of equal values that pass the filter**: a block is an index
+    range `s .. e-1` on which the data are constant, that cannot be extended to the left or right,
+    whose length is within `[min_len, max_len]` (and whose value is non-zero when `only_nonzero`);
+    and every such range is returned -/
+theorem C06_blocks_runs (data : List Int) (hd : data ≠ []) (minLen : Nat) (maxLen : Option Nat) (onz : Bool)
+    (b : List Nat) :
+    b ∈ blocks data minLen maxLen false onz ↔
+      ∃ s e, b = rangeFromTo s e ∧ s < e ∧ e ≤ data.length ∧
+        (∀ i, s ≤ i → i < e → data.getD i 0 = data.getD s 0) ∧
+        (s = 0 ∨ data.getD s 0 ≠ data.getD (s - 1) 0) ∧
+        (e = data.length ∨ data.getD e 0 ≠ data.getD (e - 1) 0) ∧
+        minLen ≤ e - s ∧ (∀ m, maxLen = some m → e - s ≤ m) ∧ (onz = true → data.getD s 0 ≠ 0) := by
+  have hpairs : ((0 :: (List.filter (fun i => decide (i ≥ 1) && data.getD i 0 != data.getD (i - 1) 0)
+      (List.range data.length)) ++ [data.length]).zip
+      (0 :: (List.filter (fun i => decide (i ≥ 1) && data.getD i 0 != data.getD (i - 1) 0)
+      (List.range data.length)) ++ [data.length]).tail) = consec (infl data) := by
+    simp [consec, infl, changePoints]
+  simp only [blocks, Bool.not_false, if_true, hpairs, List.mem_map, List.mem_filter]
+  constructor
+  · rintro ⟨se, ⟨hse, hok⟩, rfl⟩
+    have hb := run_bounds hd hse
+    refine ⟨se.1, se.2, rfl, hb.1, hb.2, run_constant hse, ?_, ?_, ?_⟩
+    · by_cases h0 : se.1 = 0
+      · exact Or.inl h0
+      · exact Or.inr (run_left hd hse h0)
+    · by_cases hn : se.2 = data.length
+      · exact Or.inl hn
+      · exact Or.inr (run_right hd hse hn)
+    · simp only [Bool.and_eq_true, decide_eq_true_eq, Bool.or_eq_true, Bool.not_eq_true'] at hok
+      refine ⟨hok.1.1, ?_, ?_⟩
+      · intro m hm; have := hok.1.2; rw [hm] at this; simpa using this
+      · intro ho; rcases hok.2 with h | h
+        · rw [ho] at h; exact absurd h (by simp)
+        · simpa using h
+  · rintro ⟨s, e, rfl, hse, hen, hc, hl, hr, hmin, hmax, hz⟩
+    refine ⟨(s, e), ⟨run_complete s e hse hen hc hl hr, ?_⟩, rfl⟩
+    simp only [Bool.and_eq_true, decide_eq_true_eq, Bool.or_eq_true, Bool.not_eq_true']
+    refine ⟨⟨hmin, ?_⟩, ?_⟩
+    · cases maxLen with
+      | none => rfl
+      | some m => simpa using hmax m rfl
+    · cases onz with
+      | false => exact Or.inl rfl
+      | true => exact Or.inr (by simpa using hz rfl)
+
+example : blocks [5, 5, 0, 0, 0, 7] 2 none false false = [[0, 1], [2, 3, 4]] ∧
+    blocks [5, 5, 0, 0, 0, 7] 2 none false true = [[0, 1]] := by decide
+
+/-- the two wrap-around defects of the current source (known findings), as theorems about the model:
+    an all-equal array whose single run is filtered out comes back with every index twice, and
+    `max_len` is not applied to the merged wrap-around run -/
+theorem C06_blocks_wrap_witnesses :
+    blocks [0] 2 none true false = [[0, 0]] ∧ blocksSpec [0] 2 none true false = [] ∧
+    blocks [0, 0, 1, 0] 1 (some 2) true false = [[3, 0, 1], [2]] ∧
+    blocksSpec [0, 0, 1, 0] 1 (some 2) true false = [[2]] := by decide
 
 end TV.C06
